@@ -169,8 +169,11 @@ def quads_stream_frames(
 
     """
     stream.enroll()
-    if stream.options.params.namespace_declarations:
-        namespace_declarations(data, stream)  # type: ignore[arg-type]
+    if (
+        isinstance(data, GenericStatementSink)
+        and stream.options.params.namespace_declarations
+    ):
+        namespace_declarations(data, stream)
 
     iterator: Generator[Quad]
     if isinstance(data, GenericStatementSink):
@@ -211,8 +214,11 @@ def graphs_stream_frames(
 
     """
     stream.enroll()
-    if stream.options.params.namespace_declarations:
-        namespace_declarations(data, stream)  # type: ignore[arg-type]
+    if (
+        isinstance(data, GenericStatementSink)
+        and stream.options.params.namespace_declarations
+    ):
+        namespace_declarations(data, stream)
 
     statements: Generator[Quad]
     if isinstance(data, GenericStatementSink):
